@@ -16,7 +16,7 @@ func init() {
 		Technique: "static analysis: dominance (token wait before every pool write / after every pool read with the right count), who-may-write enumeration, value-flow of the single per-user valve into every session, argument identity of the bucket constructor",
 		Decided: "ONLY the upper-bound mechanism, not the bound: (c) every byte the pool sends waits for len(data) tokens before the write, with the same unmodified data, and the pool's connections are written nowhere else; every read waits for its own count before the data is processed; " +
 			"(d) a user has one valve, built once from that user's rates (upload rate on the receive bucket, download on the send bucket), stored once, handed to every session and copied into its switchboard, and the limited valve forwards waits to the buckets with the same count; (e) bucket capacity equals the rate (one second of burst).",
-		NotDecided: "the bound itself (bytes over any interval <= rate*t + burst) is a property of wall-clock behaviour inside juju/ratelimit — no static argument in reach bounds it; the 1% granularity; fairness; the lower bound ('a backlogged sender is not held below the rate').",
+		NotDecided:  "the bound itself (bytes over any interval <= rate*t + burst) is a property of wall-clock behaviour inside juju/ratelimit — no static argument in reach bounds it; the 1% granularity; fairness; the lower bound ('a backlogged sender is not held below the rate').",
 		Assumptions: []string{"ratelimit.Bucket.Wait(n) blocks until n tokens are available at the configured rate"},
 	})
 }
@@ -194,7 +194,7 @@ func c19R3(c *Ctx, rule string) {
 		allInstrs(f, func(i ssa.Instruction) {
 			if call, isC := i.(*ssa.Call); isC && strings.HasSuffix(calleeName(&call.Call), "ratelimit.Bucket).Wait") {
 				fv, _ := loadedField(call.Call.Args[0])
-				if fv != nil && fv.Name() == m.bucket && stripConv(call.Call.Args[1]) == ssa.Value(f.Params[1]) {
+				if isField(fv, "internal/multiplex", "LimitedValve", m.bucket) && stripConv(call.Call.Args[1]) == ssa.Value(f.Params[1]) {
 					ok = true
 				}
 			}
@@ -222,15 +222,21 @@ func c19R4(c *Ctx, rule string) {
 		if fv == nil {
 			return
 		}
-		idx, isB := want[fv.Name()]
+		role := ""
+		for n := range want {
+			if isField(fv, "internal/multiplex", "LimitedValve", n) {
+				role = n
+			}
+		}
+		idx, isB := want[role]
 		if !isB {
 			return
 		}
 		call, ok := st.Val.(*ssa.Call)
 		good := ok && strings.HasSuffix(calleeName(&call.Call), "ratelimit.NewBucketWithRate") &&
 			stripConv(call.Call.Args[0]) == ssa.Value(mv.Params[idx]) && stripConv(call.Call.Args[1]) == ssa.Value(mv.Params[idx])
-		got[fv.Name()] = true
-		c.Check(good, rule, "bucket "+fv.Name()+" built from parameter "+fmt.Sprint(idx), c.at(i), "NewBucketWithRate(float64(p), p): capacity = one second of rate", "bucket is built from "+Expr(st.Val)+" (rate and capacity must both be parameter "+fmt.Sprint(idx)+")")
+		got[role] = true
+		c.Check(good, rule, "bucket "+role+" built from parameter "+fmt.Sprint(idx), c.at(i), "NewBucketWithRate(float64(p), p): capacity = one second of rate", "bucket is built from "+Expr(st.Val)+" (rate and capacity must both be parameter "+fmt.Sprint(idx)+")")
 	})
 	for n := range want {
 		if !got[n] {
